@@ -9,4 +9,4 @@ for c in "$@"; do
   echo "seeded=$D check=$c exit=$rc :: $(grep -E '^VIOLATION' /tmp/seeded_${D}_$c.txt | head -1 | cut -c1-260)"
   grep -E "^C[0-9]+ quick|HARNESS" /tmp/seeded_${D}_$c.txt | head -2
 done
-git -C /repo checkout -- . ; git -C /repo status --short
+git -C /repo checkout -- . ; git -C /repo status --short; ( cd /verif/harness && cargo build --release --offline >/dev/null 2>&1 )
